@@ -85,6 +85,16 @@ def rsp_real_binary(ctx, ninja):
             if seen != '':
                 bad.append('empty rspfile_content%s: the command found %s at start, expected an empty response file (ninja exit %d)'
                            % (' after a failed run left the old file' if first else '', 'no response file' if seen is None else repr(seen[:80]), p.returncode))
+        # "kept when it fails" for EVERY way of failing: exit statuses other than 1 (2, 126, 127, 255) and death by a signal
+        for how, cmdtail in (('exit 2', 'exit 2'), ('exit 3', 'exit 3'), ('exit 126', 'exit 126'), ('exit 127', 'exit 127'), ('exit 255', 'exit 255'),
+                             ('killed by SIGKILL', 'kill -9 $$$$'), ('killed by SIGSEGV', 'kill -11 $$$$'), ('exit 1', 'exit 1')):
+            for f in ('f.rsp', 'f.seen', 'f'):
+                if os.path.exists(d + '/' + f): os.unlink(d + '/' + f)
+            open(d + '/build.ninja', 'w').write('rule r\n  command = cp $out.rsp $out.seen && %s\n  rspfile = $out.rsp\n  rspfile_content = X $in Y\nbuild f: r in2\n' % cmdtail)
+            p = subprocess.run([ninja, '-C', d], stdout=subprocess.PIPE, stderr=subprocess.STDOUT, timeout=60)
+            if p.returncode == 0: bad.append('command `%s` failed but ninja exited 0' % how)
+            if not os.path.exists(d + '/f.rsp'): bad.append('rspfile not kept after a command that failed by `%s`' % how)
+            elif open(d + '/f.rsp').read() != 'X in2 Y': bad.append('rspfile kept after `%s` holds %r' % (how, open(d + '/f.rsp').read()[:60]))
     finally:
         shutil.rmtree(d, ignore_errors=True)
     return bad
